@@ -248,7 +248,7 @@ def _balanced(ts):
 def main(tier, seed):
     res = Result(PID, tier, seed)
     try:
-        translate.run_all()
+        translate.run_all(PID)
     except translate.AnchorLost as e:
         res.violation("translator lost its anchor: %s" % e, {"theorem_or_correspondence": "tools/translate.py gen_pprule"}, found_input=False)
     pr = coq_prove(PID)
